@@ -1,0 +1,23 @@
+//go:build verif
+// +build verif
+
+// Machine-checked contracts for this package (checked by /verif/govc).
+// Comment-only: no executable code.
+
+package manifest
+
+//@ import atypes "github.com/ovrclk/akash/types"
+
+// a manifest group as a resource list: one record per service, in order
+//@ func (Group).GetResources
+//@   fresh
+//@   ensures len(result) == len(g.Services)
+//@   ensures forall i: int :: 0 <= i && i < len(result) ==> result[i].Resources == g.Services[i].Resources && result[i].Count == g.Services[i].Count
+//@   loop 1 invariant 0 <= iter && iter <= len(g.Services) && len(resources) == iter && (cap(resources) > 0 ==> fresh(resources))
+//@   loop 1 invariant arr(resources) == atloop(arr(resources)) || freshloop(resources)
+//@   loop 1 invariant forall i: int :: 0 <= i && i < len(resources) ==> resources[i].Resources == g.Services[i].Resources && resources[i].Count == g.Services[i].Count
+//@   loop 1 modifies resources[**]
+//@ func (Group).GetName
+//@   ensures result == g.Name
+
+//@ property C10 := (Group).GetResources#*, (Group).GetName#*
